@@ -29,7 +29,7 @@ NSTEP = 16
 def plan(tier, seed):
     jobs = [{"name": "step%02d" % i, "spec": {"kind": "step", "lo": i * 4096, "hi": (i + 1) * 4096}} for i in range(NSTEP)]
     jobs.append({"name": "short", "spec": {"kind": "short"}})
-    n = 20000 if tier == "quick" else 1000000
+    n = 20000 if tier == "quick" else 8000000
     k = 4 if tier == "quick" else 16
     for i in range(k):
         jobs.append({"name": "rand%02d" % i, "spec": {"kind": "rand", "n": n // k}})
